@@ -108,6 +108,7 @@ type State struct {
 	nonReplayable bool
 	noBlock       bool
 	fmtArgs   []Value
+	lastTokOperands []Value
 	inArm    int // > 0 while executing one arm of a diamond that is being merged
 	dead     bool
 	finished bool
